@@ -55,6 +55,11 @@ def bcd_time(rng):
                                    rng.randrange(24), rng.randrange(60), rng.randrange(60), rng.randrange(100))
         txt = "%04d%02d%02d%02d%02d%02d%02d" % (y, mo, da, h, mi, s, hu)
         d = [int(c) for c in txt]
+    r = rng.random()
+    if r < 0.04:                 # a time stamp that was never set (all zero; the hundredths do not show) / all nines
+        d = [0] * 14 + [rng.randrange(10), rng.randrange(10)]
+    elif r < 0.05:
+        d = [9] * 16
     raw = bytes((d[2 * i] << 4) | d[2 * i + 1] for i in range(8))
     t = "".join(str(x) for x in d)
     disp = "%s/%s/%s %s:%s:%s" % (t[4:6], t[6:8], t[0:4], t[8:10], t[10:12], t[12:14])
@@ -370,8 +375,18 @@ def fieldtext(rng, u, width, full=False, alphabet=None, may_be_empty=True):
     s = tok + rtext(rng, n - len(tok), alphabet)
     s = clean_edges(s) or tok
     if not full and rng.random() < 0.08 and len(s) > len(tok) + 1:
+        s = multibyte(rng, s, len(tok), width)
+    return s
+
+
+def multibyte(rng, s, lo, width):
+    """replace one character of s (at index >= lo) by printable non-ASCII text; the result fits into `width` bytes"""
+    if True:
+        tok = s[:lo]
         # printable non-ASCII text: a character that takes two or three bytes (the field width counts bytes)
-        ch = rng.choice(["\u00b5", "\u00e9", "\u20ac", "\u00df"])
+        # ... including sequences that Unicode normalisation would rewrite (decomposed u-diaeresis, KELVIN SIGN, OHM SIGN,
+        # ANGSTROM SIGN, a ligature, a full-width digit): the field shows the stored code points, not an equivalent
+        ch = rng.choice(["\u00b5", "\u00e9", "\u20ac", "\u00df", "u\u0308", "\u212a", "\u2126", "\u212b", "\ufb01", "\uff11"])
         extra = len(ch.encode("utf-8")) - 1
         k = rng.randrange(len(tok), len(s))
         t = s[:k] + ch + s[k + 1:]
@@ -564,6 +579,8 @@ def gen_lp(rng, u, creator, ntargets=None, namelen=None):
     if namelen:
         n = namelen if rng.random() < 0.3 else rng.randrange(1, namelen + 1)
         name = clean_edges(u.token(min(n, 6)) + rtext(rng, max(0, n - 6)))
+        if len(name) > 8 and rng.random() < 0.1:
+            name = multibyte(rng, name, min(n, 6), namelen)
     if ntargets is None:
         ntargets = rng.choice([0, 1, 2, 3, 4, 5, 8, 17, 64, 255, rng.randrange(256)])
     targets = []
